@@ -208,6 +208,7 @@ impl Dist {
 		let mut parts = Vec::<(Complex, BigRat)>::new();
 		for (n1, p1) in &self.parts {
 			for (n2, p2) in &rhs.parts {
+				test_int(int)?;
 				let n = f(n1, n2, int)?;
 				let p = p1.clone().mul(p2, int)?;
 				let mut found = false;
